@@ -96,6 +96,13 @@ def sample_predecessors(ref: str) -> Dict[str, Any]:
                 preds.append(p)
         out["preds"] = {p: _state_of(ctrl, p) for p in preds}
         out["graph_preds"] = sorted(preds)
+        files = {}
+        for p in preds:
+            try:
+                files[p] = len(os.listdir(ctrl.graph.nodes[p]["component"]().specification.workingDirectory.path))
+            except Exception:
+                files[p] = None
+        out["pred_files"] = files
     except Exception as e:
         out["preds_error"] = repr(e)
     return out
@@ -425,6 +432,14 @@ def run_scenario(flowir: str, script: Dict[str, Any], location: str, perturb_see
         res["stuck_diag"] = diagnose_stuck(ctrl)
     res["final_states"] = _states(ctrl)
     res["stage_states"] = {i: _safe(lambda i=i: s.state) for i, s in ctrl._stageStates.items()}
+    res["consume"] = {}
+    for n, d in ctrl.graph.nodes(data=True):
+        try:
+            c = d["component"]()
+            if isinstance(c.engine, engine.RepeatingEngine):
+                res["consume"][n] = bool(c.engine.consume)
+        except Exception:
+            pass
     res["graph_nodes"] = sorted(ctrl.graph.nodes)
     res["graph_edges"] = sorted([list(e) for e in ctrl.graph.edges])
     # shut everything down
@@ -484,3 +499,41 @@ def signature(events: List[Dict[str, Any]], kinds=("launch", "exit", "cs.run", "
     import hashlib
     s = "|".join("%s:%s" % (e["kind"], e["comp"]) for e in events if e["kind"] in kinds)
     return hashlib.sha256(s.encode()).hexdigest()[:16]
+
+
+# --------------------------------------------------------------------------- LINE-level yield injection
+
+_line_yield_installed = False
+
+
+def install_line_yield(p: float, seed: int = 0, sleep_s: float = 0.0):
+    """sys.monitoring LINE events restricted to control.py / workflow.py / engine.py: with probability p the
+    running thread yields (sleep(0) or a short sleep).  Only yields where the interpreter could pre-empt anyway,
+    so it cannot manufacture impossible interleavings."""
+    global _line_yield_installed
+    if _line_yield_installed or p <= 0:
+        return
+    import sys
+    mon = sys.monitoring
+    tool = mon.PROFILER_ID
+    try:
+        mon.use_tool_id(tool, "verif-line-yield")
+    except ValueError:
+        return
+    files = tuple(os.path.realpath(m.__file__) for m in (control, workflow, engine))
+    rng = random.Random(seed)
+    counter = {"lines": 0, "yields": 0}
+
+    def on_line(code, line):
+        if os.path.realpath(code.co_filename) not in files:
+            return mon.DISABLE
+        counter["lines"] += 1
+        if rng.random() < p:
+            counter["yields"] += 1
+            time.sleep(sleep_s)
+        return None
+
+    mon.register_callback(tool, mon.events.LINE, on_line)
+    mon.set_events(tool, mon.events.LINE)
+    _line_yield_installed = True
+    return counter
